@@ -211,6 +211,16 @@ def generate(ctx):
                     continue
                 add_cases(cases, metas, ctx, "multi:" + pname, p, tokens, actual, cfg, framings=("cl",),
                           single_cut_limit=0, n_random=1, one_byte_limit=3000)
+    # 2b. longer lists (four and five codings) with the layer limit at, above and below their length, and unlimited
+    longs = [(["gzip"] * 4, ["gzip"] * 4), (["gzip", "deflate", "gzip", "deflate"], ["gzip", "raw", "gzip", "raw"]), (["gzip"] * 5, ["gzip"] * 5),
+             (["deflate", "gzip", "gzip", "gzip"], ["raw", "gzip", "gzip", "gzip"])]
+    for pname, p in ps[:4]:
+        if len(p) > 3000:
+            continue
+        for tokens, actual in longs:
+            for cfg in (dict(big, layers=len(tokens)), dict(big, layers=len(tokens) + 1), dict(big, layers=len(tokens) - 1), dict(big, layers=0)):
+                add_cases(cases, metas, ctx, "multi:" + pname, p, tokens, actual, cfg, framings=("cl",),
+                          single_cut_limit=0, n_random=1, one_byte_limit=3000)
     # 3. token spellings, unknown tokens, identity, separators
     p = ps[3][1]
     gz = ["gzip"]
@@ -470,6 +480,11 @@ def oracle(meta, ob, ex, mex):
     if lim > 0 and layers > lim:
         return "FAIL-layers", "%d layers > limit %d" % (layers, lim)
     quiet = cfg.get("tstep", 0) == 0 and cfg.get("hookfail", 0) == 0 and cfg.get("decomp", 1) == 1
+    # every announced coding within the configured limit gets its layer: a list of n real codings builds min(n, limit) layers (all n without a limit)
+    if meta.tokens and cfg.get("decomp", 1) == 1 and all(t in ("gzip", "x-gzip", "deflate", "x-deflate") for t in meta.tokens):
+        want = len(meta.tokens) if lim == 0 else min(len(meta.tokens), lim)
+        if layers != want:
+            return "FAIL-layer-count", "%d codings announced, limit %d: %d layers built, %d expected" % (len(meta.tokens), lim, layers, want)
     if meta.payload is None or not quiet or not meta.complete:
         return "ok", ""
     bomb = cfg.get("bomb", DEFAULT_BOMB)
